@@ -10,7 +10,7 @@ git -C /repo worktree add -q $wt HEAD || exit 2
 cd $wt
 if ! git apply "$d/patch.diff"; then echo "RESULT $name patch_does_not_apply"; cd /; git -C /repo worktree remove --force $wt; exit 1; fi
 suite=$(cargo nextest run --workspace --no-fail-fast --offline 2>&1 | grep -E "^\s*Summary|^error(\[|:)" | head -3 | tr '\n' ' ')
-cp "$d/seed_demo.rs" serde_arrow/tests/seed_demo.rs
+mkdir -p serde_arrow/tests; cp "$d/seed_demo.rs" serde_arrow/tests/seed_demo.rs
 with=$(cargo test --offline -p serde_arrow --features arrow-55 --test seed_demo 2>&1 | grep -E "^test result|^error(\[|:)" | head -2 | tr '\n' ' ')
 git apply -R "$d/patch.diff"
 without=$(cargo test --offline -p serde_arrow --features arrow-55 --test seed_demo 2>&1 | grep -E "^test result|^error(\[|:)" | head -2 | tr '\n' ' ')
